@@ -60,6 +60,12 @@ func main() {
 	}
 	dec := json.NewDecoder(bufio.NewReaderSize(f, 1<<20))
 	sess = &engine.Session{}
+	if os.Getenv("VERIF_LOCK_THREAD") != "" {
+		// every system call of the session comes from one thread, so that
+		// "the n-th write call" means the same to strace (which counts per
+		// thread) as to the history
+		runtime.LockOSThread()
+	}
 	for {
 		var op proto.Op
 		if err := dec.Decode(&op); err == io.EOF {
